@@ -639,6 +639,60 @@ def run_http_case(case, watchdog):
     return out, True
 
 
+def run_https_case(case, watchdog):
+    """HTTPS relay: the peer never takes part in the TLS handshake, or completes it, reads the request and never answers
+    (nor closes the TLS session)."""
+    conns = []
+
+    def handle(sock, addr):
+        conns.append(sock)
+        try:
+            if case['mode'] == 'handshake':
+                gevent.sleep(3600)
+            tls = server_ctx().wrap_socket(sock, server_side=True)
+            conns.append(tls)
+            tls.recv(65536)
+            gevent.sleep(3600)
+        except Exception:
+            pass
+    server = StreamServer(('127.0.0.1', 0), handle)
+    server.start()
+    relay = HttpRelay('https://127.0.0.1:%d/' % server.server_port, timeout=0.3, ehlo_as='relay.example', context=client_ctx())
+    env = c11.make_env(1, 'h')
+    got = AsyncResult()
+    t0 = time.time()
+
+    def go():
+        try:
+            got.set(('ok', relay.attempt(env, 0)))
+        except BaseException as e:
+            got.set(('exc', e))
+    g = gevent.spawn(go)
+    out = []
+    try:
+        g.join(timeout=max(watchdog, 3.0))
+        if not got.ready():
+            out.append(('C14:http-attempt-outlives-timeout:https-%s' % case['mode'], '%r: still blocked after %.1f s' % (case, time.time() - t0)))
+        else:
+            kind, res = got.get()
+            if kind == 'ok' or not isinstance(res, RelayError):
+                out.append(('C14:stalled-attempt-not-transient:https', '%r: %r' % (case, res)))
+    finally:
+        if not g.dead:
+            g.kill(block=False)
+        try:
+            kill_relay(relay)
+        except Exception:
+            pass
+        server.stop()
+        for s_ in conns:
+            try:
+                s_.close()
+            except Exception:
+                pass
+    return out, True
+
+
 def run_http_reuse_case(case, watchdog):
     """The first request on a kept-alive connection is answered, but its response body never completes; the second attempt re-uses
     the connection and must still end within the relay timeout."""
@@ -717,6 +771,8 @@ def other_cases():
     for first in ('ok', 'error'):
         for mode in ('silent', 'trickle'):
             yield {'family': 'http-reuse', 'first': first, 'mode': mode}
+    for mode in ('handshake', 'response'):
+        yield {'family': 'https', 'mode': mode}
     for per in (True, False):
         yield {'family': 'pipe', 'per_recipient': per}
         yield {'family': 'pipe', 'per_recipient': per, 'child': 'ignores-term'}
@@ -726,7 +782,7 @@ def other_cases():
 
 
 RUN = {'server': run_server_case, 'server-tls': run_server_tls_case, 'server-noread': run_server_noread_case, 'client': run_client_case, 'client-idle': run_client_idle_case, 'pipe': run_pipe_case,
-       'http': run_http_case, 'http-reuse': run_http_reuse_case}
+       'http': run_http_case, 'http-reuse': run_http_reuse_case, 'https': run_https_case}
 
 
 def run_shard(ctx):
@@ -773,6 +829,9 @@ def replay(case):
                 return []
         elif fam == 'server-tls':
             if case.get('how') not in ('immediate', 'starttls') or case.get('mode') not in ('silent', 'partial'):
+                return []
+        elif fam == 'https':
+            if case.get('mode') not in ('handshake', 'response'):
                 return []
         elif fam == 'http-reuse':
             if case.get('first') not in ('ok', 'error') or case.get('mode') not in ('silent', 'trickle'):
